@@ -83,6 +83,8 @@ pub struct ROpts {
     pub multi_term_profiles: bool,
     pub versions: bool,
     pub name_pool: Option<&'static [&'static str]>,
+    /// line breaks between the terms inside [..] and <..> (folded fields)
+    pub inner_newlines: bool,
 }
 
 impl Default for ROpts {
@@ -102,6 +104,7 @@ impl Default for ROpts {
             multi_term_profiles: true,
             versions: true,
             name_pool: None,
+            inner_newlines: false,
         }
     }
 }
@@ -207,7 +210,12 @@ pub fn write_relation(r: &mut Rng, o: &ROpts, m: &MRel, feats: &mut Vec<&'static
         s.push('[');
         for (i, (neg, a)) in a.iter().enumerate() {
             if i > 0 {
-                s.push_str(if o.ws_level >= 2 && r.chance(1, 6) { "  " } else { " " });
+                if o.inner_newlines && r.chance(1, 4) {
+                    s.push_str("\n ");
+                    feats.push("inner-group-newline");
+                } else {
+                    s.push_str(if o.ws_level >= 2 && r.chance(1, 6) { "  " } else { " " });
+                }
             }
             if *neg {
                 s.push('!');
@@ -223,7 +231,12 @@ pub fn write_relation(r: &mut Rng, o: &ROpts, m: &MRel, feats: &mut Vec<&'static
         s.push('<');
         for (i, (neg, a)) in g.iter().enumerate() {
             if i > 0 {
-                s.push(' ');
+                if o.inner_newlines && r.chance(1, 4) {
+                    s.push_str("\n\t");
+                    feats.push("inner-group-newline");
+                } else {
+                    s.push(' ');
+                }
                 feats.push("multi-term-profile");
             }
             if *neg {
